@@ -1,5 +1,6 @@
 import RichModel.Lemmas.LiveMain
 import RichModel.Lemmas.LiveCtl
+import RichModel.Lemmas.LiveText
 /-!
 # C10 — Live and progress displays leave a correct screen after any history
 
@@ -12,7 +13,13 @@ the number / width of lines, on the screen size.
 to the display kind and raises nothing; `stop` occurs only as the last operation; every frame put on
 display fits the screen (`shown_fits_of_crop` below: automatic for `crop` / `ellipsis`; the documentation
 says a `visible` frame taller than the screen "cannot be properly cleared"); a transient display leaves
-one free row for the line feed `stop` writes before erasing.
+one free row for the line feed `stop` writes before erasing; the console is a terminal that is not dumb
+and the display is not disabled (`Cfg.plain`).  Histories include `Op.write`: writes to the redirected
+`sys.stdout` / `sys.stderr` with any number of new lines and an unterminated rest, on both streams.  There is
+NO hypothesis about text pending in the streams when `stop` is called: the repaired `stop`
+(`flushFix = true`, fix 4c3921f) prints it — stdout's, then stderr's — right below everything printed so far
+and above the last frame (`pendLines` in `viewStop` / `viewStopM`); `flushFits` in `wf` only asks that the
+frames redrawn by those two prints fit the screen like any other frame.
 
 The screen theorems are about the code with the argument-less `print()` routed through the render
 hooks (`bareBypass = false`); `old_bare_print_leaves_remnant` is the machine-checked witness that rich 9.10.0
@@ -20,7 +27,8 @@ as found, before fix b373465 (`bareBypass = true`), breaks them.  Likewise `clea
 `Progress.start` (`startGuard = true`, fix 4e4f7e5) and `old_progress_start_leaks` is the witness for the as-found code.
 `live_screen` speaks about one session (`stop` last); what goes wrong when a stopped display is started
 again with the as-found `stop` (before fix b4577f9) is witnessed by `old_restart_erases_printed_lines`
-(`resetShape = false`).  /repo contains the three repairs: `bareBypass = false`, `startGuard = true`, `resetShape = true`.
+(`resetShape = false`).  /repo contains the repairs `bareBypass = false`, `startGuard = true`, `resetShape = true`,
+`blankFix = true`, `flushFix = true`; `guardBase` and `disableFix` are the two still open.
 -/
 namespace RichModel.C10
 open RichModel RichModel.Screen RichModel.Live
@@ -30,12 +38,12 @@ terminal leaves exactly: the printed lines in order, then the most recently refr
 after a transient stop), then blank rows only — no remnant of an earlier frame, no printed line lost.
 Rows are rows of terminal cells: `cells cfg.cw l` is the line `l` with a filler cell after every
 double-width character (the identity when every character is one cell wide). -/
-theorem live_screen (cfg : Cfg) (ov : Overflow) (r0 : Frame) (h : List Op)
-    (hfix : cfg.bareBypass = false) (hwf : wf cfg ov r0 h = true) :
+theorem live_screen (cfg : Cfg) (ov : Live.Overflow) (r0 : Frame) (h : List Op)
+    (hfix : cfg.bareBypass = false) (hflush : cfg.flushFix = true) (hwf : wf cfg ov r0 h = true) :
     ∃ k, (replay cfg.height Screen.init (emit cfg ov r0 h)).rows =
       (printed cfg ov r0 h ++ lastFrame cfg ov r0 h).map (cells cfg.cw) ++ List.replicate k [] := by
   simp only [wf, Bool.and_eq_true, decide_eq_true_eq] at hwf
-  exact (history_main hwf.1.1 hfix hwf.1.2 h _ _ _ (good_init cfg ov r0 hwf.1.2) hwf.2).1
+  exact (history_main hwf.1.1 hfix hflush hwf.1.2 h _ _ _ (good_init cfg ov r0 hwf.1.2) (bufOk_init ov r0) hwf.2).1
 
 /-- **live_screen_sessions** (any number of sessions on the same display object).  For every history in
 which `start` / `stop` may occur anywhere — a stopped display started again, prints between the sessions —
@@ -43,23 +51,25 @@ with the repaired `stop` (`resetShape = true`: the recorded shape is forgotten a
 restored): the screen shows exactly the finished output (printed lines and the frames left by the stopped
 non-transient sessions, in order; `finished`), then the frame of the session still running
 (`liveFrameOf`, `[]` if none), then blank rows only.  `wfM` is `wf` with `stop` allowed anywhere. -/
-theorem live_screen_sessions (cfg : Cfg) (ov : Overflow) (r0 : Frame) (h : List Op)
-    (hfix : cfg.bareBypass = false) (hreset : cfg.resetShape = true) (hwf : wfM cfg ov r0 h = true) :
+theorem live_screen_sessions (cfg : Cfg) (ov : Live.Overflow) (r0 : Frame) (h : List Op)
+    (hfix : cfg.bareBypass = false) (hflush : cfg.flushFix = true) (hreset : cfg.resetShape = true)
+    (hwf : wfM cfg ov r0 h = true) :
     ∃ k, (replay cfg.height Screen.init (emit cfg ov r0 h)).rows =
       (finished cfg ov r0 h ++ liveFrameOf cfg ov r0 h).map (cells cfg.cw) ++ List.replicate k [] := by
   simp only [wfM, Bool.and_eq_true, decide_eq_true_eq] at hwf
-  obtain ⟨k, hs, _⟩ := (history_multi hwf.1.1 hfix hreset hwf.1.2 h _ _ _ (good_init cfg ov r0 hwf.1.2) hwf.2).1.shown
+  obtain ⟨k, hs, _⟩ := (history_multi hwf.1.1 hfix hflush hreset hwf.1.2 h _ _ _ (good_init cfg ov r0 hwf.1.2) (bufOk_init ov r0) hwf.2).1.shown
   obtain ⟨k', hk'⟩ := shown_rows hs
   refine ⟨k', ?_⟩
   show (replay cfg.height Screen.init (run cfg noFault (initSt ov r0) h).2.1).rows = _
   rw [hk', List.map_append]; rfl
 
 /-- …and during all of it the cursor never goes above the first row under the finished output. -/
-theorem cursor_never_above_region_sessions (cfg : Cfg) (ov : Overflow) (r0 : Frame) (h : List Op)
-    (hfix : cfg.bareBypass = false) (hreset : cfg.resetShape = true) (hwf : wfM cfg ov r0 h = true) :
+theorem cursor_never_above_region_sessions (cfg : Cfg) (ov : Live.Overflow) (r0 : Frame) (h : List Op)
+    (hfix : cfg.bareBypass = false) (hflush : cfg.flushFix = true) (hreset : cfg.resetShape = true)
+    (hwf : wfM cfg ov r0 h = true) :
     AboveRegionM cfg (initSt ov r0) {} Screen.init h := by
   simp only [wfM, Bool.and_eq_true, decide_eq_true_eq] at hwf
-  exact (history_multi hwf.1.1 hfix hreset hwf.1.2 h _ _ _ (good_init cfg ov r0 hwf.1.2) hwf.2).2.2
+  exact (history_multi hwf.1.1 hfix hflush hreset hwf.1.2 h _ _ _ (good_init cfg ov r0 hwf.1.2) (bufOk_init ov r0) hwf.2).2.2
 
 /-- **cursor_hidden_iff_started**: for *every* history (any operations, any faults, every code variant,
 every kind of console, the caller catching whatever is raised) the cursor is hidden exactly while the
@@ -80,20 +90,20 @@ theorem cursor_hidden_iff_started (cfg : Cfg) (fails : Nat → Bool) (H : Nat) (
 replayed the cursor never visits a row above the first row below the lines printed before that
 operation: the live region is the only part of the screen the display ever moves in
 (`AboveRegion` unfolds to exactly this, operation by operation). -/
-theorem cursor_never_above_region (cfg : Cfg) (ov : Overflow) (r0 : Frame) (h : List Op)
-    (hfix : cfg.bareBypass = false) (hwf : wf cfg ov r0 h = true) :
+theorem cursor_never_above_region (cfg : Cfg) (ov : Live.Overflow) (r0 : Frame) (h : List Op)
+    (hfix : cfg.bareBypass = false) (hflush : cfg.flushFix = true) (hwf : wf cfg ov r0 h = true) :
     AboveRegion cfg (initSt ov r0) {} Screen.init h := by
   simp only [wf, Bool.and_eq_true, decide_eq_true_eq] at hwf
-  exact (history_main hwf.1.1 hfix hwf.1.2 h _ _ _ (good_init cfg ov r0 hwf.1.2) hwf.2).2.1
+  exact (history_main hwf.1.1 hfix hflush hwf.1.2 h _ _ _ (good_init cfg ov r0 hwf.1.2) (bufOk_init ov r0) hwf.2).2.1
 
 /-- **cursor_visible_after_stop** (well-formed histories): once the started display is stopped the
 cursor is visible again. -/
-theorem cursor_visible_after_stop (cfg : Cfg) (ov : Overflow) (r0 : Frame) (pre : List Op)
-    (hfix : cfg.bareBypass = false) (hwf : wf cfg ov r0 (pre ++ [.stop]) = true)
+theorem cursor_visible_after_stop (cfg : Cfg) (ov : Live.Overflow) (r0 : Frame) (pre : List Op)
+    (hfix : cfg.bareBypass = false) (hflush : cfg.flushFix = true) (hwf : wf cfg ov r0 (pre ++ [.stop]) = true)
     (hstarted : (run cfg noFault (initSt ov r0) pre).1.started = true) :
     (replay cfg.height Screen.init (emit cfg ov r0 (pre ++ [.stop]))).visible = true := by
   simp only [wf, Bool.and_eq_true, decide_eq_true_eq] at hwf
-  exact (history_main hwf.1.1 hfix hwf.1.2 _ _ _ _ (good_init cfg ov r0 hwf.1.2) hwf.2).2.2 pre rfl hstarted
+  exact (history_main hwf.1.1 hfix hflush hwf.1.2 _ _ _ _ (good_init cfg ov r0 hwf.1.2) (bufOk_init ov r0) hwf.2).2.2 pre rfl hstarted
 
 /-- …and with no hypothesis at all on the history: from *any* balanced state, with *any* fault
 predicate, whatever `stop` writes ends with the cursor shown if the display was started. -/
@@ -123,7 +133,7 @@ have been added before), for *every* fault predicate on the render calls (any ca
 failing calls), every body, every position at which the body itself raises: after the block the hook
 stack, `sys.stdout` / `sys.stderr` and their restore slots are as before `start`, the display is not
 started, the cursor is visible; and an exception raised by the body leaves the block. -/
-theorem cleanup_on_exception (cfg : Cfg) (hfix : cfg.kind ≠ .progress ∨ cfg.startGuard = true)
+theorem cleanup_on_exception (cfg : Cfg) (hfix : cfg.kind ≠ .progress ∨ cfg.guards = true)
     (fails : Nat → Bool) (st : St) (hbal : Bal cfg st) (hst : st.started = false)
     (body : List Op) (raiseAt : Option Nat) (H : Nat) (s : Screen) (hvis : s.visible = true) :
     let res := runWith cfg fails st body raiseAt
@@ -163,7 +173,7 @@ theorem cleanup_on_exception (cfg : Cfg) (hfix : cfg.kind ≠ .progress ∨ cfg.
       rw [hbody.2.2 j hj hle]; rfl
 
 /-- A fresh display is balanced and not started (so `cleanup_on_exception` applies to it). -/
-theorem init_balanced (cfg : Cfg) (ov : Overflow) (r0 : Frame) : Bal cfg (initSt ov r0) ∧ (initSt ov r0).started = false :=
+theorem init_balanced (cfg : Cfg) (ov : Live.Overflow) (r0 : Frame) : Bal cfg (initSt ov r0) ∧ (initSt ov r0).started = false :=
   ⟨⟨rfl, rfl, rfl, rfl, rfl⟩, rfl⟩
 
 /-- Adding tasks, printing, refreshing … before the block keeps the state balanced, so the cleanup
@@ -259,6 +269,30 @@ theorem old_pending_text_flushed_after_last_frame :
       = [['D', 'L'], ['1'], ['2'], []] := by
   decide
 
+/-- The guard of fix 4e4f7e5 is `except Exception:`.  A renderable that raises KeyboardInterrupt /
+SystemExit / GeneratorExit (`faultBase = true`) inside the first refresh of `Progress.start` gets past
+it: `__enter__` never returns, `__exit__` is never called, hook, redirection and hidden cursor stay
+behind (`guardBase = false`); with `except BaseException:` (`guardBase = true`) everything is restored. -/
+theorem old_start_guard_misses_base_exception :
+    let cfg : Cfg := { cfgProgress with startGuard := true, faultBase := true }
+    let st0 := (run cfg (fun i => i == 1) (initSt .visible []) [.addTask ['t'] true 100]).1
+    let bad := runWith { cfg with guardBase := false } (fun i => i == 1) st0 [] none
+    let good := runWith { cfg with guardBase := true } (fun i => i == 1) st0 [] none
+    (bad.2.2 = true ∧ bad.1.hooks = 1 ∧ bad.1.stdoutDepth = 1 ∧ (replay 6 Screen.init bad.2.1).visible = false) ∧
+    (good.2.2 = true ∧ good.1.hooks = 0 ∧ good.1.stdoutDepth = 0 ∧ (replay 6 Screen.init good.2.1).visible = true) := by
+  decide
+
+/-- `Progress(disable=True)` draws nothing — but its `stop` still writes the line feed that follows a last
+frame (`disableFix = false`): `a / (blank) / b` for `print a; start; stop; print b`, transient or not,
+although a disabled display has no frame to leave.  The repaired `stop` (`disableFix = true`) writes no
+line feed and erases nothing when the display is disabled. -/
+theorem old_disabled_progress_writes_newline :
+    let cfg : Cfg := { cfgProgress with bareBypass := false, resetShape := true, flushFix := true, blankFix := true, startGuard := true, disable := true, transient := true }
+    let h : List Op := [.print [['a']], .start, .stop, .print [['b']]]
+    (replay 6 Screen.init (run { cfg with disableFix := false } noFault (initSt .visible []) h).2.1).rows = [['a'], [], ['b'], []] ∧
+    (replay 6 Screen.init (run { cfg with disableFix := true } noFault (initSt .visible []) h).2.1).rows = [['a'], ['b'], []] := by
+  decide
+
 /- Decided against the property text, with evidence on real rich (harness/props/c10.py, corpus):
 
 * `console.print("abc", end="")` under a live display — NOT a finding, outside `wf`.  The property speaks
@@ -271,7 +305,33 @@ theorem old_pending_text_flushed_after_last_frame :
   `stop` is called (`wf`), or is handled by the repaired `stop` (witness above).
 * a transient display with an empty last frame leaves a blank line — a finding (small):
   `old_transient_empty_frame_leaves_blank_line`.
-* text pending in a FileProxy at `stop` — a finding: `old_pending_text_flushed_after_last_frame`. -/
+* text pending in a FileProxy at `stop` — a finding: `old_pending_text_flushed_after_last_frame`.  With
+  the repaired `stop` the theorems need no hypothesis about it: the pending text of stdout, then of
+  stderr, is printed right below everything printed so far and above the last frame
+  (`pendLines`, part of `viewStop` / `viewStopM`).
+* `Progress(disable=True)`: "nothing if transient" — and nothing otherwise, a disabled display has no
+  frame — is broken by the line feed of `stop`: a finding, `old_disabled_progress_writes_newline`
+  (the repair is in `Progress.stop`, not in `restore_cursor`, whose `""` for an unknown shape is pinned by
+  tests/test_live_render.py).  Disabled displays stay outside `Cfg.plain`.
+* BaseException raised by the body or by a renderable: `stop` uses `finally`, and `cleanup_on_exception`
+  quantifies over *whether* an error is raised, not over its class, so it covers KeyboardInterrupt,
+  SystemExit and GeneratorExit — except in the one place where the class matters, the guard of
+  `Progress.start`: a finding, `old_start_guard_misses_base_exception`. -/
+
+/-- What the redirected streams print (the part of C19's `proxy_lines` / `proxy_two_streams` this property
+relies on, restated for `Op.write`): over any sequence of writes to a stream, the lines handed to the
+console are the complete lines of the flattened character stream, the unterminated rest stays pending,
+however the text was chunked into writes; `doWrite_pw` ties `Op.write` to `pw`. -/
+theorem stream_writes_print_complete_lines (buf : Line) (ws : List (List Line × Line))
+    (h : ∀ w ∈ ws, (∀ l ∈ w.1, '\n' ∉ l) ∧ '\n' ∉ w.2) :
+    pws buf ws = cutNL buf (ws.map flatW).flatten :=
+  pws_eq_cut buf ws h
+
+/-- A Progress row wider than the console is cut by `Text.truncate(width, overflow="ellipsis")` of the
+Text model of C05 (`Model/Text.lean`): the model's `truncRow` is that function. -/
+theorem progress_row_truncation (cw : Char → Nat) (w : Nat) (hw : 1 ≤ w) (row : Line) :
+    truncRow cw w row = ((rowText row).truncate cw (w : Int) (some .ellipsis)).plain :=
+  truncRow_eq_truncate cw w hw row
 
 /-- Known finding (no small repair): a transient display whose last frame fills the screen.  The line
 feed `stop` writes scrolls the first frame row out of reach before `restore_cursor` runs, so it stays in
@@ -316,6 +376,16 @@ example :
     wf cfg .ellipsis [] h = true ∧ lastFrame cfg .ellipsis [] h = [['a', 'あ', ' '], ['あ']] ∧
     (replay 6 Screen.init (emit cfg .ellipsis [] h)).rows
       = [['あ', '\x00', 'x'], ['a', 'あ', '\x00', ' '], ['あ', '\x00'], []] := by decide
+
+/-- stream writes — several new lines in one write, text left pending on both streams when the display
+stops: the repaired `stop` completes it above the last frame, stdout first -/
+example :
+    let cfg : Cfg := { cfgLive with bareBypass := false, flushFix := true }
+    let h : List Op := [.start, .write false [['a'], ['b']] ['c'], .write true [] ['e'], .write false [['d']] ['x'], .stop]
+    wf cfg .ellipsis [['F']] h = true ∧
+    printed cfg .ellipsis [['F']] h = [['a'], ['b'], ['c', 'd'], ['x'], ['e']] ∧
+    (replay 6 Screen.init (emit cfg .ellipsis [['F']] h)).rows = [['a'], ['b'], ['c', 'd'], ['x'], ['e'], ['F'], []] := by
+  decide
 
 /-- two sessions on the same Live with prints between them (repaired `stop`) -/
 example : wfM { cfgLive with bareBypass := false, resetShape := true } .ellipsis [['1'], ['2'], ['3']]
